@@ -249,7 +249,7 @@ def main():
         elif fam == "retry":      # long runs of expiries under varied timeouts / bandwidths
             opts.update(maxgen=2, maxfires=24, drain=10, factors=[None, 1, 2], fire_limit=20, wt={"fire": 9, "set": 2.5, "lost": 0.2, "disconnect": 0.05, "publish": 4}, ka=[0])
         elif fam == "keepalive":
-            opts.update(maxgen=3, maxfires=30, drain=4, wt={"fire": 6, "idle": 4, "lost": 0.4, "publish": 1.5, "subscribe": 0.5, "unsubscribe": 0.3}, ka=[1, 2, 5, 60, 0])
+            opts.update(maxgen=3, maxfires=30, drain=4, wt={"fire": 6, "idle": 4, "lost": 0.4, "publish": 1.5, "subscribe": 0.5, "unsubscribe": 0.3}, ka=[1, 2, 5, 60, 0, 65535])
         elif fam == "qos2":       # QoS 2 exchanges only, mostly persistent sessions, publishes before CONNACK, many expiries
             opts.update(maxgen=4, maxfires=20, drain=8, qos=[2, 2, 2, 1], clean=rnd.choice([0.0, 0.0, 0.3]),
                         wt={"publish": 6, "fire": 5, "ack": 9, "lost": 1.0, "set": 0.6, "subscribe": 0.1, "unsubscribe": 0.1, "disconnect": 0.1}, ka=[0])
